@@ -64,3 +64,48 @@ def respHasBody : List (String × Bool) :=
    ("Reset", false), ("Selection", false), ("Vendor", false)]
 
 end Spec
+
+namespace Spec
+
+/-- CTAP status codes (CTAP 2.1 §8.2, with the 2.0 codes the crate keeps) by the crate's names -/
+def statusCodes : List (String × Nat) := [
+  ("Success", 0x00), ("InvalidCommand", 0x01), ("InvalidParameter", 0x02), ("InvalidLength", 0x03),
+  ("InvalidSeq", 0x04), ("Timeout", 0x05), ("ChannelBusy", 0x06), ("LockRequired", 0x0A),
+  ("InvalidChannel", 0x0B), ("CborUnexpectedType", 0x11), ("InvalidCbor", 0x12),
+  ("MissingParameter", 0x14), ("LimitExceeded", 0x15), ("UnsupportedExtension", 0x16),
+  ("FingerprintDatabaseFull", 0x17), ("LargeBlobStorageFull", 0x18), ("CredentialExcluded", 0x19),
+  ("Processing", 0x21), ("InvalidCredential", 0x22), ("UserActionPending", 0x23),
+  ("OperationPending", 0x24), ("NoOperations", 0x25), ("UnsupportedAlgorithm", 0x26),
+  ("OperationDenied", 0x27), ("KeyStoreFull", 0x28), ("NotBusy", 0x29), ("NoOperationPending", 0x2A),
+  ("UnsupportedOption", 0x2B), ("InvalidOption", 0x2C), ("KeepaliveCancel", 0x2D),
+  ("NoCredentials", 0x2E), ("UserActionTimeout", 0x2F), ("NotAllowed", 0x30), ("PinInvalid", 0x31),
+  ("PinBlocked", 0x32), ("PinAuthInvalid", 0x33), ("PinAuthBlocked", 0x34), ("PinNotSet", 0x35),
+  ("PinRequired", 0x36), ("PinPolicyViolation", 0x37), ("PinTokenExpired", 0x38),
+  ("RequestTooLarge", 0x39), ("ActionTimeout", 0x3A), ("UpRequired", 0x3B), ("UvBlocked", 0x3C),
+  ("IntegrityFailure", 0x3D), ("InvalidSubcommand", 0x3E), ("UvInvalid", 0x3F),
+  ("UnauthorizedPermission", 0x40), ("Other", 0x7F), ("SpecLast", 0xDF), ("ExtensionFirst", 0xE0),
+  ("ExtensionLast", 0xEF), ("VendorFirst", 0xF0), ("VendorLast", 0xFF)]
+
+/-- pinUvAuthToken permission bits (CTAP 2.1 §6.5.5.7) -/
+def permissions : List (String × Nat) := [
+  ("MAKE_CREDENTIAL", 0x01), ("GET_ASSERTION", 0x02), ("CREDENTIAL_MANAGEMENT", 0x04),
+  ("BIO_ENROLLMENT", 0x08), ("LARGE_BLOB_WRITE", 0x10), ("AUTHENTICATOR_CONFIGURATION", 0x20)]
+
+/-- authenticator data flag bits (WebAuthn §6.1) -/
+def authDataFlags : List (String × Nat) := [
+  ("USER_PRESENCE", 0x01), ("USER_VERIFIED", 0x04), ("ATTESTED_CREDENTIAL_DATA", 0x40),
+  ("EXTENSION_DATA", 0x80)]
+
+/-- U2F authenticate control bytes (FIDO U2F raw message formats §5.1) -/
+def controlBytes : List (String × Nat) := [
+  ("CheckOnly", 0x07), ("EnforceUserPresenceAndSign", 0x03), ("DontEnforceUserPresenceAndSign", 0x08)]
+
+/-- byte → control-byte variant (index into `controlBytes`) -/
+def controlByteOf (b : Nat) : Option Nat :=
+  if b = 0x07 then some 0 else if b = 0x03 then some 1 else if b = 0x08 then some 2 else none
+
+/-- byte → credential protection policy (index: Optional, OptionalWithCredentialIdList, Required) -/
+def credProtectOf (b : Nat) : Option Nat :=
+  if b = 1 then some 0 else if b = 2 then some 1 else if b = 3 then some 2 else none
+
+end Spec
